@@ -30,11 +30,11 @@ SpecDecode(e) ==
   LET bs == e.encoded  w == e.w  n == e.n IN
   CASE e.enc = "plain" /\ e.kind = "boolean" -> [k \in 1..n |-> <<BitAt(bs, k - 1)>>]
     [] e.enc = "plain" /\ e.kind = "bytearray" -> PlainByteArrays(bs, 1, <<>>)
-    [] e.enc = "plain" -> IF PlainFixedOK(bs, w, n) THEN PlainFixed(bs, w, n) ELSE <<<<"malformed">>>>
+    [] e.enc = "plain" -> IF PlainFixedOK(bs, w, n) THEN PlainFixed(bs, w, n) ELSE <<<<-1>>>>
     [] e.enc = "rle" /\ e.kind = "boolean" ->
          \* <4-byte length> hybrid of 1-bit values
-         IF Len(bs) < 4 THEN <<<<"malformed">>>>
-         ELSE IF LEInt(Take(bs, 4)) # Len(bs) - 4 THEN <<<<"badlength">>>>
+         IF Len(bs) < 4 THEN <<<<-1>>>>
+         ELSE IF LEInt(Take(bs, 4)) # Len(bs) - 4 THEN <<<<-1>>>>
          ELSE HybridBytes(Drop(bs, 4), 1, n, 1)
     [] e.enc = "rle" /\ e.kind = "levels" -> HybridBytes(bs, w, n, 1)
     [] e.enc = "rle" -> HybridBytes(bs, w, n, 4)
@@ -44,7 +44,7 @@ SpecDecode(e) ==
     [] e.enc = "deltalength" -> DeltaLengthByteArray(bs)
     [] e.enc = "deltabytearray" -> DeltaByteArray(bs)
     [] e.enc = "split" -> ByteStreamSplit(bs, w)
-    [] OTHER -> <<<<"nospec">>>>
+    [] OTHER -> <<<<-1>>>>
 
 AllOnes(s) == \A k \in 1..Len(s) : s[k] = 1
 Tag == E.enc \o "/" \o E.kind
